@@ -87,6 +87,8 @@ def nc_variable(draw, dimlabels, numeric_only, name):
     if vk == "f" and draw(st.booleans()):
         spec["nan"] = draw(st.lists(st.integers(0, n - 1), min_size=1, max_size=max(1, n // 2), unique=True))
     spec["attrs"] = draw(st.dictionaries(attr_names, nc_attr, max_size=2))
+    if len(dims) >= 2 and "dtype" not in spec:
+        spec["hist"] = draw(st.sampled_from([{"mode": "none"}, {"mode": "none"}, {"mode": "transposed"}, {"mode": "fortran"}, {"mode": "warm"}]))     # storage layout of the values
     return [name, spec]
 
 
